@@ -64,9 +64,9 @@ func CompareTx(exp *hist.ExpTx, got *Delivered, checkLabels bool) *Diff {
 		if g.DB != e.DB || g.Table != e.Table {
 			return &Diff{ep + ".Table", "table", fmt.Sprintf("got %s.%s want %s.%s", g.DB, g.Table, e.DB, e.Table)}
 		}
-		if g.SQL != "" {
-			return &Diff{ep + ".Query.SQL", "sql", fmt.Sprintf("row event carries SQL %q", g.SQL)}
-		}
+		// (whether a row change also carries a statement text — a library that
+		// understands ROWS_QUERY events may keep it there — is not something the
+		// properties speak about: kind, table, timestamp and rows are compared)
 		if d := compareRows(ep, "after", e.Values, g.Values); d != nil {
 			return d
 		}
